@@ -45,6 +45,16 @@ BOTH = ['Copy', 'Clone', 'Debug', 'Default'] + CMP
 STRUCT_ONLY = ['Add', 'SubAssign', 'Neg', 'BitXor', 'ShlAssign', 'Not']
 
 
+WR = '#[derive(Debug, PartialEq, Eq, PartialOrd, Ord, Hash)]\npub struct Wr<T: ?Sized>(pub T);\n'
+UNSIZED_WRAPPERS = [
+    ('Debug, PartialEq, Eq, PartialOrd, Ord, Hash', 'pub struct X<U: ?Sized> { pub a: u8, pub b: Wr<U> }'),
+    ('Debug, PartialEq', 'pub struct X<T, U>(pub T, pub ::core::mem::ManuallyDrop<U>) where U: ?Sized;'),
+    ('Debug', 'pub struct X<U: ?Sized>(pub ::std::cell::RefCell<U>);'),
+    ('Debug, Hash', 'pub struct X<U: ?Sized> { pub a: u8, #[debug(ignore)] pub m: u8, pub b: Wr<Wr<U>> }'),
+    ('Debug, PartialOrd, PartialEq', "pub struct X<'a, U: ?Sized + 'a> { pub r: &'a u8, pub b: ::std::boxed::Box<U>, pub c: Wr<U> }"),
+]
+
+
 class C20(Prop):
     pid = 'C20'
     tag = 'all generated impls'
@@ -257,6 +267,18 @@ class C20(Prop):
                 continue
             head = ('#[::derive_ex::derive_ex(%s)]\n' % r.attr) if r.mode == 'A' else '#[derive(::derive_ex::Ex)]\n'
             mods.append(l2.Module(r.cid, l2.decl(head, r.item, r.cid) + '\npub fn run() {}', r))
+        # hand-written: a possibly-unsized LAST field that is not the bare `?Sized` parameter but a wrapper around it
+        class _Lit:
+            def __init__(self, text):
+                self.text, self.meta = text, dict(nontrivial=True, traits=['Debug', 'PartialEq', 'Hash'])
+            def input_text(self):
+                return self.text
+        for k, (attr, decl) in enumerate(UNSIZED_WRAPPERS):
+            for mode in ('A', 'D'):
+                head = ('#[::derive_ex::derive_ex(%s)]\n' % attr) if mode == 'A' else '#[derive(::derive_ex::Ex)]\n#[derive_ex(%s)]\n' % attr
+                text = ('#[derive_ex(%s)] %s' % (attr, decl)) if mode == 'A' else '#[derive(Ex)] #[derive_ex(%s)] %s' % (attr, decl)
+                mods.append(l2.Module(3 * 10 ** 6 + 2 * k + (mode == 'D'),
+                                      WR + head + decl + '\npub fn run() {}', _Lit(text)))
         nb = max(1, min(R.NPROC, len(mods) // 40 + 1))
         batches = [('c20_%d' % k, mods[k::nb]) for k in range(nb)]
         l2.compile_parallel(batches, prelude=PRELUDE, check_only=True, crate_attrs=CRATE_ATTRS)
